@@ -1,4 +1,15 @@
 import PortusModel.Props.C20
+import PortusModel.Props.C20Layout
+#print axioms Portus.C20.layout_same_image
+#print axioms Portus.C20.comments_same_program
+#print axioms Portus.C20.rendering_parses
+#print axioms Portus.Lang.parse_render
+#print axioms Portus.Lang.layout_independent
+#print axioms Portus.Lang.comments_only_add_none
+#print axioms Portus.Lang.rexpr_parses
+#print axioms Portus.Lang.revents_parse
+#print axioms Portus.Lang.rdefs_parse
+#print axioms Portus.Lang.spelling_table
 #print axioms Portus.C20.comments_do_not_lower
 #print axioms Portus.C20.comments_irrelevant
 #print axioms Portus.C20.compile_deterministic
